@@ -24,7 +24,8 @@ LEVEL_NOTE = ("Trusted: Coq kernel, Go harness + Python glue. Modelled, not veri
 THEOREMS = ["stash_pop_working", "stash_pop_staged_iff", "stash_pop_id (partial: side condition nothing staged)", "stash_pop_id_refuted", "reset_hard_spec", "reset_soft_spec", "checkout_no_loss",
             "checkout_move_clean_source", "checkout_plain_intact", "failed_step_unchanged", "pop_takes_latest", "stash_pop_conflict", "pop_touches_working_only", "stash_pushes_on_top"]
 REFUTED = ["stash_pop_id_refuted: stash;pop does not restore a staged modification (staged = head afterwards)"]
-RULE = ("two tables (pk,a,b), keys 1..3, values NULL/0..2; main and other start from different committed contents; 6-12 operations drawn from edit / add / add -A / commit / "
+RULE = ("round 3: failing stash pushes (illegal stash name) with the clause 'a refused operation changes nothing'; moving checkouts between two branches that are both dirty on the same commit "
+        "with unstaged changes only (must be refused unless the working sets are identical; the target's uncommitted rows must survive); two tables (pk,a,b), keys 1..3, values NULL/0..2; main and other start from different committed contents; 6-12 operations drawn from edit / add / add -A / commit / "
         "stash / pop / reset --hard [commit] / reset / reset t / reset --soft commit / checkout / checkout --move, biased so that stash is usually followed by pop and "
         "edits precede stash/checkout; non-trivial = at least one stash, reset or checkout succeeded with a dirty working set; distinct by case JSON")
 ASSUMPTIONS = ["tables are never created or dropped after the initial commit"]
